@@ -1,7 +1,7 @@
 """Property-level driver: runs the obligation groups of one property, decides
 held / violation / undecided, replays counterexamples natively where a recipe
 exists, honours known_findings.json and writes the evidence file."""
-import json, os, re, shutil, subprocess, sys, time, importlib, glob
+import json, shlex, os, re, shutil, subprocess, sys, time, importlib, glob
 from concurrent.futures import ThreadPoolExecutor
 from vp.runner import Group, Result, run_group, run, VERIF, REPO, WORK, nsync_includes, abspath
 
@@ -92,7 +92,7 @@ def native_replay(prop, g: Group, ob, rdir):
     cmd += [abspath(s) for s in g.srcs] + [os.path.join(VERIF, "rg/vp_native.c")]
     cmd += ["-lpthread"]
     with open(os.path.join(rdir, "build.sh"), "w") as f:
-        f.write("#!/bin/sh\n" + " ".join(cmd) + "\n" + exe + " " + os.path.join(rdir, "script.txt") + "\n")
+        f.write("#!/bin/sh\n" + " ".join(shlex.quote(c) for c in cmd) + "\n" + exe + " " + os.path.join(rdir, "script.txt") + "\n")
     rc, out, err, _ = run(cmd, 120, mem_gb=None)
     if rc != 0:
         return False, "native build failed:\n" + err[-3000:]
@@ -168,6 +168,7 @@ def run_property(mod, tier, seed):
     samples = []
     groups_ev = []
     solver_s = 0.0
+    more_failed = 0
     functions = []
     assumptions = list(getattr(mod, "ASSUMPTIONS", []))
     for g, r in results:
@@ -189,7 +190,8 @@ def run_property(mod, tier, seed):
                     known_lines.append(line)
                 continue
             idx += 1
-            if idx > 3:
+            if idx > 3 or len(violations) >= 12:      # at most 3 replays per group and 12 per run; the evidence file counts all failures
+                more_failed += 1
                 continue
             rdir, confirmed = write_replay(prop, g, r, ob, idx)
             violations.append((g, ob, rdir, confirmed))
@@ -251,6 +253,8 @@ def run_property(mod, tier, seed):
         print(f"  failed obligation: [{ob.get('name')}] {ob.get('description')} @ {ob.get('file','')}:{ob.get('line','')}"
               + (f" (group {g.name}, function under contract {g.enforce})" if g else ""))
         rc = 1
+    if more_failed:
+        print(f"  ({more_failed} further failed obligations of the same run are not replayed separately; see the per-group cbmc logs under {WORK}/{prop})")
     if rc == 0 and (infra or undecided):
         rc = 2
         for g, r in infra:
